@@ -62,6 +62,7 @@ structure LS where
   cap : Nat := 0                          -- Maxpend
   closed : Bool := false
   implLog : List Nat := []                -- ghost: requests handed to the implementation, in order
+  unl : List Nat := []                    -- ghost: requests that have left the tag table through their own Respond
 
 def upd (f : Nat → Req) (i : Nat) (v : Req) : Nat → Req := fun j => if j = i then v else f j
 def updL (f : Nat → List Nat) (i : Nat) (v : List Nat) : Nat → List Nat := fun j => if j = i then v else f j
@@ -196,20 +197,22 @@ def LS.step (s : LS) : Ev → Option LS
         let q := s.req it.rid
         match q.prev with
         | none =>        -- delete(conn.reqs, tag); flushreqs = req.flushreq
-          some { s with chain := updL s.chain q.tag [],
+          some { s with chain := updL s.chain q.tag [], unl := it.rid :: s.unl,
                         insts := setInst s.insts i { it with pc := .next, nxt := none, cur := q.flushreq } }
         | some m =>      -- nextreq.next = nil; flushreqs = nil
           let chain' := updL s.chain q.tag (cutAfter m (s.chain q.tag))
           match q.flushreq with
           | none =>
-            some { s with chain := chain', insts := setInst s.insts i { it with pc := .next, nxt := some m, cur := none } }
+            some { s with chain := chain', unl := it.rid :: s.unl,
+                          insts := setInst s.insts i { it with pc := .next, nxt := some m, cur := none } }
           | some fr =>
             if (s.req m).flushreq = none then   -- move them to the next request
-              some { s with chain := chain', req := upd s.req m { s.req m with flushreq := some fr },
+              some { s with chain := chain', unl := it.rid :: s.unl, req := upd s.req m { s.req m with flushreq := some fr },
                             insts := setInst s.insts i { it with pc := .next, nxt := some m, cur := none } }
             else
               -- `nextreq = req.flushreq`: the code restarts the flush request instead of the neighbour
-              some { s with chain := chain', insts := setInst s.insts i { it with pc := .next, nxt := some fr, cur := none } }
+              some { s with chain := chain', unl := it.rid :: s.unl,
+                            insts := setInst s.insts i { it with pc := .next, nxt := some fr, cur := none } }
       else none
     | none => none
   | .post i =>
@@ -282,6 +285,17 @@ def LS.tame (s : LS) : Ev → Bool
 def LS.runT (s : LS) : List Ev → Option LS
   | [] => some s
   | e :: es => if s.tame e then (s.step e).bind (fun s' => s'.runT es) else none
+
+/-- Schedules of a session without Tflush (and in which the implementation does not cancel on
+    its own): the setting of the shared-tag FIFO theorem. -/
+def LS.plain (s : LS) : Ev → Bool
+  | .recv _ (some _) => false
+  | .implFlush _ => false
+  | e => s.tame e
+
+def LS.runP (s : LS) : List Ev → Option LS
+  | [] => some s
+  | e :: es => if s.plain e then (s.step e).bind (fun s' => s'.runP es) else none
 
 def LS.run (s : LS) : List Ev → Option LS
   | [] => some s
